@@ -24,7 +24,8 @@ MODELLED = [
       ("getter", "children_all"), ("getter", "sources_all"), ("getter", "sensors_all"),
       ("getter", "collections_all"), ("def", "__iter__")]),
     ("magpylib/_src/obj_classes/class_BaseGeo.py", "BaseGeo",
-     [("setter", "parent"), ("def", "__add__"), ("def", "copy"), ("getter", "style")]),
+     [("setter", "parent"), ("def", "__add__"), ("def", "copy"), ("getter", "style"),
+      ("def", "_process_style_kwargs")]),
     ("magpylib/_src/utility.py", None,
      [("def", "rec_obj_remover"), ("def", "format_obj_input"), ("def", "filter_objects"),
       ("def", "add_iteration_suffix")]),
